@@ -325,7 +325,7 @@ class ElectronicControlUnit:
                     logger.debug("Deadline for event reached")
                     if event['callback']( event['cookie'] ) == True:
                         # "true" means the callback wants to be called again
-                        while event['deadline'] < now:
+                        while event['deadline'] <= now and event['delta_time'] > 0:
                             # just to take care of overruns
                             event['deadline'] += event['delta_time']
                         # recalc next wakeup
